@@ -261,31 +261,56 @@ def gen_popen(r, sid, focus=None):
 
 # ------------------------------------------------------------------ running
 
+SHARD_TIMEOUT = 240      # a shard of a few dozen scenarios takes well under two minutes
+SINGLE_TIMEOUT = 25      # one scenario alone: a fraction of a second
+
+
 def run_batch(scns, tag):
-    """Runs the scenarios through simdrive+spsim, 16 processes; returns {id: (driver lines, report lines)}."""
+    """Runs the scenarios through simdrive+spsim, 16 processes; returns {id: (driver lines, report lines, rc, stderr)}.
+    A shard that does not finish (the real library spinning or blocked for good) is re-run one scenario per process
+    under a short watchdog, so that the scenario in which the library never returns is identified; it is reported with
+    rc = 'hang'."""
     d = tempfile.mkdtemp(prefix="e1-%s-" % tag, dir=C.BUILD)
     nsh = min(16, max(1, len(scns) // 4))
     shards = [scns[i::nsh] for i in range(nsh)]
 
-    def one(i):
-        sf = os.path.join(d, "s%d.scn" % i)
-        rf = os.path.join(d, "r%d.txt" % i)
+    def drive(name, items, timeout):
+        sf = os.path.join(d, "s%s.scn" % name)
+        rf = os.path.join(d, "r%s.txt" % name)
         with open(sf, "w") as f:
-            f.write("\n\n".join(s["text"] for s in shards[i]) + "\n")
+            f.write("\n\n".join(s["text"] for s in items) + "\n")
         rc, out, err = C.run([os.path.join(C.BIN, "simdrive"), sf, os.path.join(C.ROOT, "ocaml", "bin", "spsim"), rf],
-                             timeout=1500)
+                             timeout=timeout)
         rep = open(rf, errors="replace").read() if os.path.exists(rf) else ""
         return rc, out, err, rep
 
     res = {}
+
+    def collect(items, rc, out, err, rep):
+        drv = split_blocks(out, "scn ", "endscn")
+        rp = split_blocks(rep, "scn ", "endscn")
+        for s in items:
+            res[s["id"]] = (drv.get(s["id"]), rp.get(s["id"]), rc, err[-500:])
+
     try:
         with ThreadPoolExecutor(max_workers=nsh) as ex:
-            outs = list(ex.map(one, range(nsh)))
+            outs = list(ex.map(lambda i: drive(str(i), shards[i], SHARD_TIMEOUT), range(nsh)))
+        stuck = []
         for i, (rc, out, err, rep) in enumerate(outs):
-            drv = split_blocks(out, "scn ", "endscn")
-            rp = split_blocks(rep, "scn ", "endscn")
-            for s in shards[i]:
-                res[s["id"]] = (drv.get(s["id"]), rp.get(s["id"]), rc, err[-500:])
+            if rc == 124:
+                stuck += shards[i]
+            else:
+                collect(shards[i], rc, out, err, rep)
+        if stuck:
+            with ThreadPoolExecutor(max_workers=16) as ex:
+                singles = list(ex.map(lambda js: drive("x%d" % js[0], [js[1]], SINGLE_TIMEOUT), enumerate(stuck)))
+            for s, (rc, out, err, rep) in zip(stuck, singles):
+                if rc == 124:
+                    drv = split_blocks(out, "scn ", "endscn")
+                    rp = split_blocks(rep, "scn ", "endscn")
+                    res[s["id"]] = (drv.get(s["id"]), rp.get(s["id"]), "hang", err[-300:])
+                else:
+                    collect([s], rc, out, err, rep)
     finally:
         shutil.rmtree(d, ignore_errors=True)
     return res
@@ -396,6 +421,10 @@ def monitors_comm(s, drv, rep):
             eof_err = (not s["piped"][2]) or (rd["perr_wr"] == "false" and rd["perr_buf"] == "0")
             if not (eof_out and eof_err):
                 fails["C03"].append("read#%d: returned all-empty data although a captured stream has not reached end-of-file" % (i + 1))
+        if s["piped"][0] and kind in ("ok", "timedout") and rd.get("pin_wr") == "false" and int(rd.get("written", len(inp))) < len(inp):
+            which = "C03" if (eff_lim is not None and kind == "ok") else ("C04" if kind == "timedout" else "C02")
+            fails[which].append("read#%d: stdin was closed with %d of %d input bytes still undelivered (a read cut short must leave the rest to later reads)" % (
+                i + 1, len(inp) - int(rd["written"]), len(inp)))
         t0, t1, dl = int(rd["t0"]), int(rd["t1"]), int(rd["deadline"])
         if kind == "timedout":
             if eff_tl is None:
